@@ -6,7 +6,11 @@ Scenario (JSON, replayable):
   {"proto": "h1"|"h2", "T": seconds, "cap": int, "server_names": [..]|None, "terminate_at": seconds|None,
    "client": [action...], "apps": [script...], "tail": seconds}
   client actions: ["send", latin1-bytes] | ["sleep", s] | ["eof"] | ["reset"] | ["fail_writes"]
+                  | ["pause_writes"] | ["resume_writes"]      (the peer stops / resumes reading: a write the transport accepts does not complete)
                   | ["h2req", path, body|None, end] | ["h2data", k, body, end] | ["h2rst", k] | ["h2goaway"]   (k = k-th h2req)
+                  | ["h2preface"]                              (the client preface + SETTINGS on their own, before any request)
+  "h2_via": "alpn" (default: TLS with ALPN h2) | "prior" (cleartext, prior knowledge: h11 sees `PRI * HTTP/2.0` and the wrapper switches)
+            | "h2c" (cleartext, the first request is ["h2c_req", path]: HTTP/1.1 with `Upgrade: h2c`, answered 101, served as stream 1)
   app scripts: the step lists of harness/core/runner.make_app; instance k runs apps[k % len].
 Every request carries a distinct path `/r<k>` so that observations can be attributed to model instances."""
 from __future__ import annotations
@@ -260,6 +264,30 @@ def _session(worker: str, sc: dict) -> dict:
             elif k == "fail_writes":
                 rec.label("envFailWrites")
                 io.fail_writes()
+            elif k == "pause_writes":
+                rec.label("envPauseWrites")
+                io.pause_writes()
+            elif k == "resume_writes":
+                rec.label("envResumeWrites")
+                await io.resume_writes()
+            elif k == "h2preface":
+                if h2c[0] is None:
+                    h2c[0] = C.H2Client(initial_window=sc.get("h2_window"))
+                    await h2c[0].pump(io)
+            elif k == "h2c_req":
+                # HTTP/1.1 request with `Upgrade: h2c`: the server answers 101 and goes on in HTTP/2, the request is stream 1
+                cl = h2c[0] = C.H2Client(upgrade=True)
+                hs = [(b"host", (act[2] if len(act) > 2 else "x").encode()), (b"connection", b"Upgrade, HTTP2-Settings"), (b"upgrade", b"h2c"),
+                      (b"http2-settings", cl.upgrade_settings)]
+                await io.send(C.h1_request("GET", act[1], hs))
+                got = io.take()
+                head, sep, rest = got.partition(b"\r\n\r\n")
+                if not head.startswith(b"HTTP/1.1 101"):
+                    raise RuntimeError(f"no 101 to the h2c upgrade: {got[:60]!r}")
+                cl._st(1)
+                sids.append(1)
+                cl.receive(rest)
+                await cl.pump(io)
             elif k == "h2req":
                 if h2c[0] is None:
                     h2c[0] = C.H2Client(initial_window=sc.get("h2_window"))
@@ -284,7 +312,8 @@ def _session(worker: str, sc: dict) -> dict:
         return {"sids": sids}
 
     fn = R.run_asyncio if worker == "asyncio" else R.run_trio
-    res = fn(cfg, "h2" if sc["proto"] == "h2" else None, client, sc["apps"], tail=sc.get("tail", 30.0), terminate_at=sc.get("terminate_at"))
+    alpn = "h2" if sc["proto"] == "h2" and sc.get("h2_via", "alpn") == "alpn" else None      # "prior" / "h2c": cleartext
+    res = fn(cfg, alpn, client, sc["apps"], tail=sc.get("tail", 30.0), terminate_at=sc.get("terminate_at"))
     return res
 
 
@@ -384,6 +413,9 @@ def to_trace(res: dict, sc: dict, worker: str) -> Tuple[dict, dict]:
     post_close_read = False
     heads: List[dict] = []
     scripts = sc["apps"]
+    # a cleartext connection speaks HTTP/1 (h11 reports its own end-of-input events) until the preface line has arrived
+    h2_active = sc["proto"] == "h2" and sc.get("h2_via", "alpn") == "alpn"
+    switched = False
 
     def path_key(p: str) -> str:
         return p.split("?")[0]
@@ -423,7 +455,7 @@ def to_trace(res: dict, sc: dict, worker: str) -> Tuple[dict, dict]:
         if kind == "srvRead":
             if closed:
                 post_close_read = True      # the server's own close reaching its reader: the model's `readerSeesClose`
-                if in_loop and (sc["proto"] == "h2" or ws_mode):
+                if in_loop and (h2_active or ws_mode):
                     labels.append({"op": "needData"})
                     in_loop = False
                 continue
@@ -436,7 +468,7 @@ def to_trace(res: dict, sc: dict, worker: str) -> Tuple[dict, dict]:
             elif v == 0:
                 labels.append({"op": "readEof"})
                 in_loop = True
-                if sc["proto"] == "h2" or ws_mode:      # no parser event follows an empty read there
+                if h2_active or ws_mode:      # no parser event follows an empty read there
                     labels.append({"op": "needData"})
                     in_loop = False
             else:
@@ -449,6 +481,22 @@ def to_trace(res: dict, sc: dict, worker: str) -> Tuple[dict, dict]:
             if ev == "request":
                 info = _head_info(lab[3], lab[5], lab[6], sc)
                 if lab[3] == "PRI":
+                    # the HTTP/2 preface line on a cleartext connection: the wrapper switches to H2Protocol
+                    labels.append({"op": "h2prior"})
+                    h2_active = switched = True
+                    continue
+                hl = {n.lower(): v for n, v in lab[5]}
+                if (sc["proto"] == "h2" and sc.get("h2_via") == "h2c" and not switched and hl.get("upgrade", "").strip().lower() == "h2c"
+                        and "content-length" not in hl and "transfer-encoding" not in hl):
+                    # h2c upgrade: 101, switch, the request itself becomes stream 1 and is complete
+                    names = sc.get("server_names")
+                    name_ok = True if not names else hl.get("host", "") in names
+                    labels += [{"op": "h2c"}, {"op": "head", "kind": "http", "keepAlive": True, "nameOk": name_ok, "wsOk": True}, {"op": "h2eom", "i": n_inst}]
+                    inst_of_sid[1] = n_inst
+                    inst_of_path[path_key(lab[4])] = n_inst
+                    heads.append({"inst": n_inst, "t": t, "kind": "http", "nameOk": name_ok})
+                    n_inst += 1
+                    h2_active = switched = True
                     continue
                 labels.append({"op": "head", **info})
                 inst_of_path[path_key(lab[4])] = n_inst
@@ -527,22 +575,28 @@ def to_trace(res: dict, sc: dict, worker: str) -> Tuple[dict, dict]:
             labels.append({"out": ["close", t]})
             closed = True
         elif kind == "handlerDone":
-            if in_loop and (sc["proto"] == "h2" or ws_mode):
+            if in_loop and (h2_active or ws_mode):
                 labels.append({"op": "needData"})
                 in_loop = False
             labels.append({"out": ["done", t]})
         elif kind == "envFailWrites":
             labels.append({"op": "failWrites"})
+        elif kind == "envPauseWrites":
+            labels.append({"op": "pauseWrites"})
+        elif kind == "envResumeWrites":
+            labels.append({"op": "resumeWrites"})
         elif kind == "terminated":
             labels.append({"op": "terminate"})
     # WebSocket reads carry no parser event of their own when nothing complete arrived: data before the accept is the 400 path
     labels = _ws_early(labels)
-    if in_loop and (sc["proto"] == "h2" or ws_mode):
+    if in_loop and (h2_active or ws_mode):
         labels.append({"op": "needData"})
     end = int(round((sum(a[1] for a in sc["client"] if a[0] == "sleep") + sc.get("tail", 30.0)) * 1000))
     if end > now:
         labels.append({"op": "tick", "d": end - now})
-    req = {"cmd": "conn.accept", "cfg": {"proto": sc["proto"], "cap": sc.get("cap", 10), "T": int(round(sc["T"] * 1000)), "trio": worker == "trio"},
+    # (a cleartext connection on which neither the preface nor an upgrade request arrived has been an HTTP/1 connection throughout)
+    proto = "h1" if sc["proto"] == "h2" and sc.get("h2_via", "alpn") != "alpn" and not switched else sc["proto"]
+    req = {"cmd": "conn.accept", "cfg": {"proto": proto, "cap": sc.get("cap", 10), "T": int(round(sc["T"] * 1000)), "trio": worker == "trio"},
            "labels": labels}
     facts = {"heads": heads, "app_inst": app_inst, "inst_of_path": inst_of_path, "n_inst": n_inst}
     return req, facts
@@ -688,7 +742,20 @@ def analyse(res: dict, sc: dict, facts: dict) -> dict:
     term_at: Optional[int] = None
     read_gone: Optional[int] = None
     closed_seen = False
+    in_send: Dict[int, list] = {}           # application -> the `send()` call it is still inside
+    write_blocked = False                   # a task is inside a transport write the peer keeps waiting
+    preface_at: Optional[int] = None        # the HTTP/2 preface line arrived on a cleartext connection
     for lab in res["labels"]:
+        if lab[1] == "appSendCall":
+            in_send[lab[2]] = [lab[0], lab[3]]
+        elif lab[1] == "appSendRet":
+            in_send.pop(lab[2], None)
+        elif lab[1] == "srvWriteBlocked":
+            write_blocked = True
+        elif lab[1] == "srvWriteUnblocked":
+            write_blocked = False
+        elif lab[1] == "h11ev" and lab[2] == "request" and lab[3] == "PRI" and preface_at is None:
+            preface_at = lab[0]
         if lab[1] == "timerWait":
             if lab[2] == "enter":
                 open_at = lab[0]
@@ -706,6 +773,7 @@ def analyse(res: dict, sc: dict, facts: dict) -> dict:
     for x in inst.values():
         disc = [p for p in x["puts"] if p[2] == "disconnect"]
         x["disc_at"] = disc[0][0] if disc else None
+        x["in_send"] = in_send.get(x["app"]) if x["app"] is not None else None
         ended = [a[0] for a in x["access"] if a[1] is not None]
         x["resp_end"] = min(ended) if ended else None
     ct = client_times(sc)
@@ -714,6 +782,7 @@ def analyse(res: dict, sc: dict, facts: dict) -> dict:
         ct["gone_at"] = auto if ct["gone_at"] is None else min(ct["gone_at"], auto)
     return {"instances": inst, "closed_at": res["closed_at"], "done_at": (res["handler_done"] or [None])[0], "live_tasks": res["live_tasks"],
             "waits": waits, "terminated_at": term_at, "read_gone_at": read_gone, "client": ct, "error": res["error"], "loop_errors": res["loop_errors"],
+            "close_begin_at": res.get("close_begin_at"), "write_blocked": write_blocked, "preface_at": preface_at, "via": sc.get("h2_via", "alpn") if sc["proto"] == "h2" else None,
             "stuck": bool(res.get("stuck_session")), "T": int(round(sc["T"] * 1000)),
             "end": int(round((sum(a[1] for a in sc["client"] if a[0] == "sleep") + sc.get("tail", 30.0)) * 1000)),
             "blocked_puts": [[x["i"], p[2]] for x in inst.values() for p in x["puts"] if p[1] is None],
@@ -758,8 +827,8 @@ def compare(model: dict, an: dict) -> List[str]:
         if x["puts"] or mi["handed"]:
             if mi["handed"] != [p[2] for p in x["puts"]]:
                 diffs.append(f"instance {i} handed to the queue: model {mi['handed']} impl {[p[2] for p in x['puts']]}")
-    if bool(fin["blocked"]) != bool(an["blocked_puts"]):
-        diffs.append(f"blocked tasks: model {fin['blocked']} impl {an['blocked_puts']}")
+    if bool(fin["blocked"]) != bool(an["blocked_puts"] or an.get("write_blocked")):
+        diffs.append(f"blocked tasks: model {fin['blocked']} impl {an['blocked_puts']} write_blocked={an.get('write_blocked')}")
     if fin.get("fuelOut"):
         diffs.append("model interpreter ran out of fuel")
     return diffs
@@ -934,15 +1003,42 @@ def gen_h2(rng, T: float) -> dict:
         apps.append(app_script(rng.choice([a for a in APP_KINDS if a != "raise_mid"]), rng.choice([0.01, 1.0, T / 2, T + 0.5])))
         if rng.random() < 0.6:
             client.append(["sleep", pauses(rng, T)])
-    closer = rng.choice(["rst", "rst", "eof", "goaway", "none", "none", "reset"])
+    closer = rng.choice(["rst", "rst", "eof", "goaway", "none", "none", "reset", "fail_then_leave"])
     if closer == "rst":
         client.insert(rng.randrange(1, len(client) + 1), ["h2rst", 0])
     elif closer in ("eof", "reset"):
         client.insert(rng.randrange(1, len(client) + 1), [closer])
     elif closer == "goaway":
         client.append(["h2goaway"])
+    elif closer == "fail_then_leave":
+        # the transport starts failing writes while the reader still runs (requests without a body: no flow-control
+        # acknowledgement is written for them); whatever the client sent before it left is still read, then the end
+        for a in client:
+            if a[0] == "h2req":
+                a[2] = None
+        pos = rng.randrange(1, len(client) + 1)
+        client.insert(pos, ["fail_writes"])
+        # (environment: the reading side learns of the loss within keep_alive_timeout of the first failed write)
+        left = 0.9 * T
+        for a in client[pos + 1:] + [["sleep", rng.choice([0.0, 0.5, 1.5])]]:
+            if a[0] == "sleep":
+                a[1] = min(a[1], left)
+                left -= a[1]
+        client += [["sleep", min(rng.choice([0.0, 0.5, 1.5]), max(left, 0.0))], [rng.choice(["eof", "reset"])]]
+    sc: Dict[str, Any] = {"proto": "h2", "T": T, "cap": rng.choice([10, 10, 2]), "server_names": names, "apps": apps, "terminate_at": None}
+    r = rng.random()
+    if r < 0.3:
+        # cleartext connection, HTTP/2 by prior knowledge: the preface on its own or in one read with the first request
+        sc["h2_via"] = "prior"
+        if rng.random() < 0.5:
+            client[0:0] = [["h2preface"]] + ([["sleep", pauses(rng, T)]] if rng.random() < 0.6 else [])
+    elif r < 0.45 and client[0][0] == "h2req":
+        # cleartext connection, the first request asks for the h2c upgrade (no body) and is served as stream 1
+        sc["h2_via"] = "h2c"
+        client[0] = ["h2c_req", client[0][1], client[0][4]]
     client += [["sleep", 2 * T + 5], ["eof"]]
-    return {"proto": "h2", "T": T, "cap": rng.choice([10, 10, 2]), "server_names": names, "apps": apps, "terminate_at": None, "client": client, "tail": 2 * T + 10}
+    sc.update({"client": client, "tail": 2 * T + 10})
+    return sc
 
 
 def canonical(T: float) -> List[dict]:
@@ -976,7 +1072,63 @@ def canonical(T: float) -> List[dict]:
         {**base, "name": "h2_rst_late_finish", "proto": "h2", "client": [["h2req", "/r0", None, True], ["h2rst", 0]],
          "apps": [app_script("finish_after_disconnect", 0.6 * T)]},
         {**base, "name": "h1_reset_late_finish", "client": [["send", h0], ["reset"]], "apps": [app_script("finish_after_disconnect", 0.6 * T)]},
+        # cleartext HTTP/2 by prior knowledge: preface and first request in ONE read / the preface on its own first; the response
+        # takes longer than the timeout
+        {**base, "name": "h2_prior_slow", "proto": "h2", "h2_via": "prior", "client": [["h2req", "/r0", None, True]], "apps": [slow]},
+        {**base, "name": "h2_prior_preface_then_slow", "proto": "h2", "h2_via": "prior", "client": [["h2preface"], ["h2req", "/r0", None, True]], "apps": [slow]},
+        {**base, "name": "h2_slow", "proto": "h2", "client": [["h2req", "/r0", None, True]], "apps": [slow]},
+        {**base, "name": "h2c_slow", "proto": "h2", "h2_via": "h2c", "client": [["h2c_req", "/r0"]], "apps": [slow]},
+        {**base, "name": "h2c_then_get", "proto": "h2", "h2_via": "h2c", "client": [["h2c_req", "/r0"], ["h2req", "/r1", None, True]], "apps": [resp]},
+        # … the preface arrives after the connection has been idle for 0.6 T
+        {**base, "name": "h2_prior_late_preface", "proto": "h2", "h2_via": "prior", "client": [["sleep", 0.6 * T], ["h2preface"], ["h2req", "/r0", None, True]], "apps": [resp]},
     ]
+    return out
+
+
+def closed_twice_corpus() -> List[dict]:
+    """HTTP/2: `Closed` is reported more than once and streams are opened in between.  A transport write fails while the
+    reader still runs (the failed write reports Closed), requests the client had sent before it left are then read and
+    given to new application instances, finally the reader reaches the end (EOF / reset) and reports Closed again."""
+    out: List[dict] = []
+    for first in ("sleep_respond", "start_sleep_body"):
+        for second in ("wait_disconnect", "respond_then_wait", "read_respond"):
+            for leave in ("eof", "reset"):
+                for via in ("alpn", "prior"):
+                    if via == "prior" and (first, leave) != ("sleep_respond", "eof"):
+                        continue
+                    sc = {"family": "closed_twice", "key": ["h2", first, second, leave, via], "proto": "h2", "T": 1, "cap": 10, "server_names": None,
+                          "terminate_at": None, "apps": [app_script(first, 0.5), app_script(second, 0.2)],
+                          "client": [["h2req", "/r0", None, True], ["sleep", 0.1], ["fail_writes"], ["sleep", 1.0], ["h2req", "/r1", None, True],
+                                     ["sleep", 0.5], [leave], ["sleep", 3]], "tail": 8}
+                    if via == "prior":
+                        sc["h2_via"] = "prior"
+                    out.append(sc)
+    # two streams opened after the failed write, and one opened before it that is still waiting
+    out.append({"family": "closed_twice", "key": ["h2", "three_streams"], "proto": "h2", "T": 1, "cap": 10, "server_names": None, "terminate_at": None,
+                "apps": [app_script("sleep_respond", 0.5), app_script("wait_disconnect", 0), app_script("wait_disconnect", 0), app_script("respond_then_wait", 0)],
+                "client": [["h2req", "/r0", None, True], ["h2req", "/r1", None, True], ["sleep", 0.1], ["fail_writes"], ["sleep", 1.0],
+                           ["h2req", "/r2", None, True], ["h2req", "/r3", None, True], ["sleep", 0.5], ["eof"], ["sleep", 3]], "tail": 8})
+    return out
+
+
+def blocked_write_corpus() -> List[dict]:
+    """the peer does not read (back-pressure): an application's write is accepted by the transport and does not complete; then
+    the server decides to close (the request can no longer be completed: malformed chunk header after the response has
+    started), or the peer half-closes / resets / reads again.  HTTP/1 requests and a WebSocket."""
+    out: List[dict] = []
+    head = b2s(C.h1_request("POST", "/r0", [(b"host", b"x"), (b"transfer-encoding", b"chunked")], b""))
+    wc = C.WsClient(path="/r0")
+    ws_req = b2s(wc.h1_request())
+    endings = {"malformed": [["send", "this is not a chunk size\r\n\r\n"]], "eof": [["eof"]], "reset": [["reset"]],
+               "malformed_then_reads": [["send", "this is not a chunk size\r\n\r\n"], ["sleep", 0.5], ["resume_writes"]],
+               "reads_again": [["resume_writes"]]}
+    for app in ("stream_three", "start_sleep_body", "respond"):
+        for name, end in endings.items():
+            out.append({"family": "blocked_write", "key": ["h1", app, name], "proto": "h1", "T": 1, "cap": 10, "server_names": None, "terminate_at": None,
+                        "apps": [app_script(app, 0.2)], "client": [["pause_writes"], ["send", head], ["sleep", 0.3]] + end + [["sleep", 4], ["eof"]], "tail": 8})
+    for name in ("eof", "reset", "reads_again"):
+        out.append({"family": "blocked_write", "key": ["ws", "accept_echo_close", name], "proto": "h1", "T": 1, "cap": 10, "server_names": None, "terminate_at": None,
+                    "apps": [WS_APPS["accept_echo_close"]], "client": [["pause_writes"], ["send", ws_req], ["sleep", 0.3]] + endings[name] + [["sleep", 4], ["eof"]], "tail": 8})
     return out
 
 
